@@ -245,6 +245,7 @@ func (p *PlonkChip) Verify(
 			),
 		)
 
+		verifEvent(p.api, "plonk_identity", i)
 		glApi.AssertIsEqualExtension(vanishingPolysZeta[i], prod)
 	}
 }
